@@ -766,27 +766,35 @@ Definition with_uu (s : fstate) (u : uuids) : fstate :=
 Definition add_recs (s : fstate) (l : list rec) : fstate :=
   mkF (f_store s) (f_stack s) (f_ids s) (f_ctx s) (f_uu s) (f_recs s ++ l).
 
+(* _get_row_node, first statement: record_group_uuid(mainarg_groups[0], obj_id) *)
+Definition row_group_record (s : fstate) (i : irow) : result cls fstate :=
+  match i_type i, i_objid i with
+  | (TAddGroup | TRemoveGroup | TSplitGroup), (_ :: _) =>
+    match i_list i with
+    | [] => raise EIndexErr
+    | g :: _ => match record (f_uu s) (RGroup g (UGiven (i_objid i))) with
+                | Ok u => Ok (with_uu s u) | Err e => Err e end
+    end
+  | _, _ => Ok s
+  end.
+
+(* start_new_flow: record_flow_uuid(mainarg_flow_name, obj_id) when obj_id is given *)
+Definition row_flow_record (s : fstate) (i : irow) : result cls fstate :=
+  match i_objid i with
+  | [] => Ok s
+  | _ => match record (f_uu s) (RFlow (i_main i) (UGiven (i_objid i))) with
+         | Ok u => Ok (with_uu s u) | Err e => Err e end
+  end.
+
 (* _get_row_node: container side effects, then the node (its exit view) *)
 Definition row_node (s : fstate) (i : irow) : result cls (fstate * xnode) :=
-  do s1 <- match i_type i, i_objid i with
-           | (TAddGroup | TRemoveGroup | TSplitGroup), (_ :: _) =>
-             match i_list i with
-             | [] => raise EIndexErr
-             | g :: _ => match record (f_uu s) (RGroup g (UGiven (i_objid i))) with
-                         | Ok u => Ok (with_uu s u) | Err e => Err e end
-             end
-           | _, _ => Ok s
-           end;
+  do s1 <- row_group_record s i;
   match i_type i with
   | TSend | TSaveValue | TSaveResult => Ok (s1, XBasic false)
   | TAddGroup | TRemoveGroup =>
     Ok (add_recs s1 [RGroup (hd [] (i_list i)) (given (i_objid i))], XBasic false)
   | TStartFlow =>
-    do s2 <- match i_objid i with
-             | [] => Ok s1
-             | _ => match record (f_uu s1) (RFlow (i_main i) (UGiven (i_objid i))) with
-                    | Ok u => Ok (with_uu s1 u) | Err e => Err e end
-             end;
+    do s2 <- row_flow_record s1 i;
     match i_main i with
     | [] => raise EValueErr
     | _ => Ok (add_recs s2 [RFlow (i_main i) UNone], XEnter false false)
